@@ -5,8 +5,8 @@ import TexSoupProofs.Reader.Progress
 
 `Err.internal` stands for every Python exception other than `EOFError`, `TypeError` and
 `AssertionError` (`StopIteration`, `KeyError`, `IndexError`, ...). The model returns it in three
-places: `readExpr` on an empty buffer, and twice in `readEnv` when the `\end` that the loop of
-`read_env` has peeked at is consumed. None of them is reachable.
+places: `readExpr` on an empty buffer, and in `readEnv` when the `\end` that the loop of
+`read_env` has peeked at is to be consumed from an empty buffer. Neither is reachable.
 -/
 namespace TexSoup
 
@@ -15,7 +15,7 @@ returns starts with that `\end`, and the arguments are what `read_args` reads af
 theorem readEnvBody_some : ∀ f skip tol mode ts es eargs rest,
     readEnvBody f skip tol mode ts = .ok ((es, some eargs), rest) →
     ∃ esc n r g rest', rest = esc :: n :: r ∧ esc.cat = .Escape ∧ n.text = sEnd ∧
-      readArgs g (-1) (-1) tol mode r = .ok (eargs, rest') := by
+      readCommand g 1 0 tol mode (n :: r) = .ok ((n, eargs), rest') := by
   intro f
   induction f with
   | zero => intro skip tol mode ts es eargs rest h; simp [readEnvBody] at h
@@ -26,7 +26,7 @@ theorem readEnvBody_some : ∀ f skip tol mode ts es eargs rest,
           (readEnvBody f skip tol mode ts1).bind fun be ts2 => .ok ((e :: be.1, be.2), ts2))
           = .ok ((es, some eargs), rest) →
         ∃ esc n r g rest', rest = esc :: n :: r ∧ esc.cat = .Escape ∧ n.text = sEnd ∧
-          readArgs g (-1) (-1) tol mode r = .ok (eargs, rest') := by
+          readCommand g 1 0 tol mode (n :: r) = .ok ((n, eargs), rest') := by
       intro t r h
       obtain ⟨e, ts1, he, h⟩ := Res.bind_eq_ok.mp h
       obtain ⟨⟨bes, bea⟩, ts2, hb, h⟩ := Res.bind_eq_ok.mp h
@@ -48,8 +48,8 @@ theorem readEnvBody_some : ∀ f skip tol mode ts es eargs rest,
           simp only [Except.ok.injEq, Prod.mk.injEq, Option.some.injEq] at h
           obtain ⟨⟨_, rfl⟩, rfl⟩ := h
           have hn : n.text = sEnd := by simpa using hend
-          obtain ⟨r', g, rfl, ha⟩ := readCommand_named hc (.inr hn)
-          exact ⟨t, n, r', g, ts', rfl, by simpa using hesc, hn, ha⟩
+          obtain ⟨r', _, rfl, _⟩ := readCommand_end hc hn
+          exact ⟨t, n, r', f, ts', rfl, by simpa using hesc, hn, hc⟩
         · rw [if_neg hend] at h
           exact step t r h
       · rw [if_neg hesc] at h
@@ -203,17 +203,12 @@ theorem ni_readEnv : ∀ name args pos skip tol mode ts,
       · rw [if_pos ht] at h; cases h
       · rw [if_neg ht] at h; cases h
     · rw [if_neg herr] at h
-      -- the peeked `\end` has a first argument, which is a group right after the spacer
+      -- the loop stopped at a peeked `\end`, so the remainder starts with it
       obtain ⟨a0, as', rfl, _⟩ := envError_false (by simpa using herr)
-      obtain ⟨esc, n, r, g, rest', rfl, _, _, hargs⟩ := readEnvBody_some _ _ _ _ _ _ _ _ hb
-      obtain ⟨o, r3, k, g', ts', hs, hk, _⟩ := readArgs_first hargs
-      simp only [List.drop_succ_cons, List.drop_zero] at h
-      rw [hs] at h
-      simp only at h
-      rw [hk] at h
+      obtain ⟨esc, n, r, g, rest', rfl, _, _, _⟩ := readEnvBody_some _ _ _ _ _ _ _ _ hb
       simp only at h
       rcases Res.bind_eq_error.mp h with h | ⟨x, ts2, ha, h⟩
-      · exact nA _ _ _ _ _ h
+      · exact nC _ _ _ _ _ h
       · cases h
 
 theorem ni_readEnvBody : ∀ skip tol mode ts, readEnvBody (f+1) skip tol mode ts ≠ .error .internal := by
